@@ -255,6 +255,21 @@ def r5(ctx, fs):
                 want = (want[0], want[1], tuple([want[2][0]] + sorted(want[2][1:], key=repr)))
                 anyif = any(x.get('k') in ('IfStmt', 'ContinueStmt', 'BreakStmt') for x in walk(n['slots']['body']))
                 ok_loop = body == [want] and not anyif
+                if not ok_loop:
+                    # the same decided on the paths of the loop body (`?:` inside the product, or an if / else with one `b += .. * c` per arm): a path has seen
+                    # is_positive(c) and adds the bound of that side times c - nothing else
+                    POS = ('call', 'smt::is_positive', b[1])
+                    seen = set()
+                    good = True
+                    for p in enum_paths(n['slots']['body']):
+                        pos = next((c[2] for c in p.conds if c[0] == 'if' and canon(c[1], env, subst=False) == POS), None)
+                        adds = [canon(x, env, subst=False) for st in p.stmts for x in walk(st) if x.get('k') == 'CXXOperatorCallExpr' and x.get('op') == '+=']
+                        others = [c for c in p.conds if not (c[0] == 'if' and canon(c[1], env, subst=False) == POS)]
+                        w = ('+=', 'b', ('*',) + tuple(sorted((bound(own if pos else opp, b[0]), b[1]), key=repr)))
+                        if pos is None or others or adds != [w] or p.end not in ('fall', 'continue'):
+                            good = False
+                        seen.add(pos)
+                    ok_loop = good and seen == {True, False}
         rets = [canon(n['c'][0], env, subst=False) for n in f.nodes() if n.get('k') == 'ReturnStmt']
         ctx.instance(rid, [f.id, 'shape'], {'function': f.id, 'starts_from_constant': ok_init, 'sign_selected_sum_over_all_terms': ok_loop, 'returns': [show(r) for r in rets]})
         if not (ok_init and ok_loop and rets == ['b']):
